@@ -83,6 +83,10 @@ pub fn main_authz(args: &[String]) -> anyhow::Result<()> {
     std::env::set_var("RNACOS_ENABLE_OPEN_API_AUTH", "true");
     std::env::set_var("RNACOS_CONSOLE_ENABLE_CAPTCHA", "false");
     std::env::set_var("RNACOS_CLUSTER_TOKEN", "verif-cluster-token");
+    if args[0] == "c18" {
+        std::env::set_var("RNVERIF_LEADER", "1");
+        std::env::set_var("RNACOS_ENABLE_OPEN_API_AUTH", "false");
+    }
     let sys = actix_rt::System::new();
     let r: anyhow::Result<()> = sys.block_on(async move {
         let app = crate::node::boot(&d).await?;
@@ -205,6 +209,126 @@ pub fn main_authz(args: &[String]) -> anyhow::Result<()> {
                         }
                     }
                     println!("{}", json!({"kind":"obs","path":r["path"],"canon":r["canon"],"segs":r["segs"],"spelling":r["spelling"],"method":r["method"],"d":dmap,"tokstate":smap}));
+                }
+            }
+            "c18" => {
+                use actix::prelude::*;
+                use rnacos::config::model::ConfigRaftCmd;
+                use rnacos::namespace::model::{NamespaceParam, NamespaceRaftReq};
+                use rnacos::naming::core::NamingCmd;
+                use rnacos::naming::model::Instance;
+                let w = crate::node::exec(&app, &json!({"op":"wait_leader","ms":20000})).await;
+                if w["res"] != "ok" {
+                    return Err(anyhow::anyhow!("node did not become leader"));
+                }
+                let nss = [("", "pub"), ("nsA", "nsA"), ("nsB", "nsB")];
+                let seed = |app: Arc<AppShareData>| async move {
+                    for (ns, label) in nss.iter() {
+                        let nsname = if ns.is_empty() { "public".to_string() } else { format!("NAME-MARK-{}", label) };
+                        app.namespace_addr.send(NamespaceRaftReq::Set(NamespaceParam { namespace_id: Arc::new(ns.to_string()), namespace_name: Some(nsname), r#type: None })).await??;
+                        let key = if ns.is_empty() { format!("d1-MARK-{}\u{2}g", label) } else { format!("d1-MARK-{}\u{2}g\u{2}{}", label, ns) };
+                        app.config_addr.send(ConfigRaftCmd::ConfigAdd { key, value: Arc::new(format!("CONTENT-MARK-{}", label)), config_type: None, desc: None, history_id: 1, history_table_id: None, op_time: 1, op_user: None }).await??;
+                        let newkey = if ns.is_empty() { "new1\u{2}g".to_string() } else { format!("new1\u{2}g\u{2}{}", ns) };
+                        app.config_addr.send(ConfigRaftCmd::ConfigRemove { key: newkey }).await??;
+                        let mut i = Instance { ip: Arc::new(format!("10.9.9.{}", if ns.is_empty() { 1 } else if *ns == "nsA" { 2 } else { 3 })), port: 8080, weight: 1.0, enabled: true, healthy: true, ephemeral: true, cluster_name: "DEFAULT".into(), service_name: Arc::new(format!("svc-MARK-{}", label)), group_name: Arc::new("DEFAULT_GROUP".into()), namespace_id: Arc::new(if ns.is_empty() { "public".to_string() } else { ns.to_string() }), ..Default::default() };
+                        i.generate_key();
+                        app.naming_addr.send(NamingCmd::Update(i, None)).await??;
+                        // undo what the write endpoints create
+                        let nsid = if ns.is_empty() { "public".to_string() } else { ns.to_string() };
+                        let mut extra = Instance { ip: Arc::new("10.7.7.7".to_string()), port: 7777, service_name: Arc::new(format!("svc-MARK-{}", label)), group_name: Arc::new("DEFAULT_GROUP".into()), namespace_id: Arc::new(nsid.clone()), ..Default::default() };
+                        extra.generate_key();
+                        app.naming_addr.send(NamingCmd::Delete(extra)).await??;
+                        app.naming_addr.send(NamingCmd::RemoveService(rnacos::naming::model::ServiceKey::new(&nsid, "DEFAULT_GROUP", "svc-new"))).await.ok();
+                    }
+                    Ok::<(), anyhow::Error>(())
+                };
+                seed(app.clone()).await?;
+                let digest = |app: Arc<AppShareData>| async move {
+                    let d = crate::sm::dump(&app).await?;
+                    let n: Value = serde_json::from_str(&app.naming_addr.send(rnacos::verif_hooks::DumpNaming).await?)?;
+                    let mut cfg = serde_json::Map::new();
+                    for (k, v) in d["cfg"].as_object().cloned().unwrap_or_default() {
+                        cfg.insert(k, v["content"].clone());
+                    }
+                    let mut ns = serde_json::Map::new();
+                    for (k, v) in d["ns"].as_object().cloned().unwrap_or_default() {
+                        ns.insert(k, v["name"].clone());
+                    }
+                    let inst: Vec<Value> = n["services"].as_array().cloned().unwrap_or_default().iter().map(|s| json!([s["namespace"], s["service"], s["instances"].as_array().map(|a| a.iter().map(|i| json!([i["ip"], i["port"], i["enabled"], i["weight"]])).collect::<Vec<_>>())])).collect();
+                    Ok::<Value, anyhow::Error>(json!({"cfg": cfg, "ns": ns, "inst": inst}))
+                };
+                let base = digest(app.clone()).await?;
+                let svc = test::init_service(App::new().app_data(web::Data::new(app.clone())).app_data(web::Data::new(app.config_addr.clone())).app_data(web::Data::new(app.naming_addr.clone())).app_data(web::Data::new(app.bi_stream_manage.clone())).wrap(CheckLogin::new(app.clone())).configure(console_config)).await;
+                let reqs = read_ndjson(&file)?;
+                let mut made: BTreeSet<String> = BTreeSet::new();
+                for r in reqs.iter() {
+                    // session for this privilege shape
+                    let pv = &r["priv"];
+                    let tok = format!("t18-{}", pv.to_string().bytes().fold(7u64, |a, b| a.wrapping_mul(131).wrapping_add(b as u64)));
+                    if !made.contains(&tok) {
+                        let to_set = |v: &Value| -> Option<Arc<std::collections::HashSet<Arc<String>>>> { Some(Arc::new(v.as_array().cloned().unwrap_or_default().iter().map(|x| Arc::new(x.as_str().unwrap().to_string())).collect())) };
+                        let pg = PrivilegeGroup { enabled: true, whitelist_is_all: pv["wl_all"].as_bool().unwrap(), whitelist: to_set(&pv["wl"]), blacklist_is_all: pv["bl_all"].as_bool().unwrap(), blacklist: to_set(&pv["bl"]) };
+                        let sess = UserSession { username: Arc::new(format!("u{}", tok)), nickname: None, roles: vec![Arc::new("0".to_string())], namespace_privilege: Some(pg), extend_infos: Default::default(), refresh_time: rnacos::now_second_i32() as u32 };
+                        put_cache(&app, CacheType::UserSession, &tok, CacheValue::UserSession(Arc::new(sess)), false).await?;
+                        made.insert(tok.clone());
+                    }
+                    let method = actix_web::http::Method::from_bytes(r["method"].as_str().unwrap().as_bytes())?;
+                    let mut uri = r["path"].as_str().unwrap().to_string();
+                    if let Some(q) = r["query"].as_object() {
+                        let qs: Vec<String> = q.iter().map(|(k, v)| format!("{}={}", k, v.as_str().unwrap_or(""))).collect();
+                        if !qs.is_empty() {
+                            uri = format!("{}?{}", uri, qs.join("&"));
+                        }
+                    }
+                    let mut tr = test::TestRequest::default().method(method).uri(&uri).insert_header(("Token", tok.clone()));
+                    if r.get("json").map(|j| !j.is_null()).unwrap_or(false) {
+                        tr = tr.insert_header(("Content-Type", "application/json")).set_payload(r["json"].to_string());
+                    } else if let Some(f) = r["form"].as_object() {
+                        let fs: Vec<String> = f.iter().map(|(k, v)| format!("{}={}", k, v.as_str().unwrap_or(""))).collect();
+                        tr = tr.insert_header(("Content-Type", "application/x-www-form-urlencoded")).set_payload(fs.join("&"));
+                    }
+                    let fut = svc.call(tr.to_request());
+                    let (dec, body, status) = match tokio::time::timeout(std::time::Duration::from_millis(4000), fut).await {
+                        Ok(Ok(resp)) => {
+                            let d = decision(&resp);
+                            let st = resp.status().as_u16();
+                            let b = test::read_body(resp).await;
+                            (d["decision"].as_str().unwrap().to_string(), String::from_utf8_lossy(&b).to_string(), st)
+                        }
+                        Ok(Err(e)) => ("error".to_string(), e.to_string(), e.as_response_error().status_code().as_u16()),
+                        Err(_) => ("timeout".to_string(), String::new(), 0),
+                    };
+                    let refused = body.contains("NO_NAMESPACE_PERMISSION") || dec == "no_permission" || dec == "no_login";
+                    let ok_flag = body.contains("\"success\":true") || (status == 200 && !body.contains("\"success\":false") && !refused);
+                    let d = if dec != "handled" { dec.clone() } else if refused { "refused".to_string() } else if ok_flag { "handled_ok".to_string() } else { "handled_err".to_string() };
+                    let seen: Vec<&str> = ["pub", "nsA", "nsB"].iter().filter(|l| body.contains(&format!("MARK-{}", l))).cloned().collect();
+                    // did the request change anything? (write endpoints: digest after the write has settled)
+                    let mut changed = false;
+                    if r["op"] == "write" {
+                        let mut now = digest(app.clone()).await?;
+                        for _ in 0..6 {
+                            tokio::time::sleep(std::time::Duration::from_millis(25)).await;
+                            let again = digest(app.clone()).await?;
+                            if again == now {
+                                break;
+                            }
+                            now = again;
+                        }
+                        changed = now != base;
+                        if changed {
+                            for _ in 0..80 {
+                                seed(app.clone()).await?;
+                                tokio::time::sleep(std::time::Duration::from_millis(25)).await;
+                                if digest(app.clone()).await? == base {
+                                    break;
+                                }
+                            }
+                            if digest(app.clone()).await? != base {
+                                return Err(anyhow::anyhow!("could not restore the seed state after request {}: {} vs {}", r["id"], digest(app.clone()).await?, base));
+                            }
+                        }
+                    }
+                    println!("{}", json!({"kind":"obs","id":r["id"],"endpoint":r["endpoint"],"op":r["op"],"ns":r["ns"],"spelling":r["spelling"],"priv":r["priv"],"d":d,"status":status,"changed":changed,"seen":seen,"body":body.chars().take(160).collect::<String>()}));
                 }
             }
             _ => return Err(anyhow::anyhow!("unknown authz mode")),
